@@ -57,6 +57,10 @@ pub open spec fn ac_of(a: &AhoCorasick, ns: Seq<Seq<char>>, ci: bool) -> bool {
     }
 }
 
+pub open spec fn mt_string(m: MatchType) -> String {
+    match m { MatchType::Contains(s) => s, MatchType::EndsWith(s) => s, MatchType::Exact(s) => s, MatchType::StartsWith(s) => s }
+}
+
 // context entry i names needle i
 pub open spec fn aligned(ctx: Seq<MatchType>, ns: Seq<String>) -> bool {
     ctx.len() == ns.len() && forall|i: int| 0 <= i < ctx.len() ==> mt_text(#[trigger] ctx[i]) == ns[i]@
@@ -392,4 +396,73 @@ pub open spec fn is_new(x: Expression, c0: Seq<Expression>, c1: Seq<Expression>,
     ||| (x1.len() > x0.len() && x == x1.last())
     ||| (s1.len() > s0.len() && x == s1.last())
     ||| (a1.len() > a0.len() && x == a1.last())
+}
+
+// ---- a single string value on a key: numeric prefixes become comparisons (C09), everything else one search (C07)
+pub open spec fn num_cmp(p: Pattern) -> Option<(BoolSym, Expression)> {
+    match p {
+        Pattern::Equal(i) => Some((BoolSym::Equal, Expression::Integer(i))),
+        Pattern::GreaterThan(i) => Some((BoolSym::GreaterThan, Expression::Integer(i))),
+        Pattern::GreaterThanOrEqual(i) => Some((BoolSym::GreaterThanOrEqual, Expression::Integer(i))),
+        Pattern::LessThan(i) => Some((BoolSym::LessThan, Expression::Integer(i))),
+        Pattern::LessThanOrEqual(i) => Some((BoolSym::LessThanOrEqual, Expression::Integer(i))),
+        Pattern::FEqual(i) => Some((BoolSym::Equal, Expression::Float(i))),
+        Pattern::FGreaterThan(i) => Some((BoolSym::GreaterThan, Expression::Float(i))),
+        Pattern::FGreaterThanOrEqual(i) => Some((BoolSym::GreaterThanOrEqual, Expression::Float(i))),
+        Pattern::FLessThan(i) => Some((BoolSym::LessThan, Expression::Float(i))),
+        Pattern::FLessThanOrEqual(i) => Some((BoolSym::LessThanOrEqual, Expression::Float(i))),
+        _ => None,
+    }
+}
+
+// what one pattern means on a string, including `*`
+pub open spec fn pattern_rel(i: Identifier, x: Seq<char>) -> bool {
+    match i.pattern {
+        Pattern::Any => true,
+        _ => ident_rel(i, x),
+    }
+}
+
+// an automaton over one needle with its one context entry
+pub proof fn lemma_ac_one(a: AhoCorasick, m: Vec<MatchType>, ns: Seq<String>, ci: bool)
+    requires ac_of(&a, texts(ns), ci), m@.len() == 1, ns.len() == 1, mt_text(m@[0]) == ns[0]@,
+    ensures
+        forall|x: Seq<char>| #[trigger] search_rel(Search::AhoCorasick(Box::new(a), m, ci), x) == member_rel(m@[0], ci, x),
+        search_wf(Search::AhoCorasick(Box::new(a), m, ci)),
+{
+    lemma_ac_search(a, m, ns, ci, ci);
+    assert forall|x: Seq<char>| any_ctx(m@, ci, x) == member_rel(m@[0], ci, x) by {}
+}
+
+// sorting a member into the vector of its kind keeps kinds_ok (the precondition of the batching block)
+pub proof fn lemma_kinds_push(v: Seq<Identifier>, i: Identifier, k: int)
+    requires kinds_ok(v, k), kinds_ok(seq![i], k),
+    ensures kinds_ok(v.push(i), k),
+{
+    let v2 = v.push(i);
+    assert(seq![i][0] == i);
+    assert forall|j: int| 0 <= j < v2.len() implies match (#[trigger] v2[j]).pattern {
+        Pattern::StartsWith(_) => k == 1, Pattern::Contains(_) => k == 2, Pattern::EndsWith(_) => k == 3, Pattern::Exact(_) => k == 4, Pattern::Regex(_) => k == 5, _ => false,
+    } by {
+        if j < v.len() { assert(v2[j] == v[j]); } else { assert(v2[j] == i); }
+    }
+}
+
+// no search of the group is a merged one (automaton / regex set)
+pub open spec fn no_merged(g: Seq<Expression>) -> bool {
+    forall|k: int| 0 <= k < g.len() && (#[trigger] g[k]) is Search ==> !is_merged(g[k]->Search_0)
+}
+pub proof fn lemma_no_merged_push(g: Seq<Expression>, e: Expression)
+    ensures no_merged(g.push(e)) == (no_merged(g) && !(e is Search && is_merged(e->Search_0))),
+{
+    let g2 = g.push(e);
+    if no_merged(g2) {
+        assert forall|k: int| 0 <= k < g.len() && (#[trigger] g[k]) is Search implies !is_merged(g[k]->Search_0) by { assert(g2[k] == g[k]); }
+        assert(g2[g.len() as int] == e);
+    }
+    if no_merged(g) && !(e is Search && is_merged(e->Search_0)) {
+        assert forall|k: int| 0 <= k < g2.len() && (#[trigger] g2[k]) is Search implies !is_merged(g2[k]->Search_0) by {
+            if k < g.len() { assert(g2[k] == g[k]); } else { assert(g2[k] == e); }
+        }
+    }
 }
